@@ -584,9 +584,10 @@ def handle_end_progs(state: TokenizerState) -> Iterator[TokenInfo]:
         return
 
     if state.in_fstring() or state.in_colon():
+        pos = state.pos
         yield from handle_fstring_progs(state, state.end_progs[-1])
-        # else:
-        #     raise TokenError(f"Expected {endprog.quote} inside f-string", (state.lnum, state.pos))
+        if state.pos != pos:  # a part of the f-string was consumed; the caller comes back for the rest
+            return
 
     elif endmatch := state.match(state.end_progs[-1].pattern):  # all on one line
         end = endmatch.end(0)
@@ -594,17 +595,12 @@ def handle_end_progs(state: TokenizerState) -> Iterator[TokenInfo]:
         state.pop_mode()
         return
 
-    if state.in_braces() or (not state.end_progs):  # in case the state changed above
-        return
-
-    if (
-        (state.pos == 0)  # called at start of the line
-        or ((state.in_multi_line_string()) or (state.in_continued_string()))
-    ):
+    # nothing ends the string on this line: it has to continue on the next one
+    if state.in_multi_line_string() or state.in_continued_string():
         state.end_progs[-1].join_line(state)
         state.pos = state.max
-    # else:
-    #     raise TokenError(f"Invalid string quotes at {state.pos} in {state.line}", (state.lnum, state.pos))
+    else:
+        raise TokenError("unterminated string literal", state.end_progs[-1].start)
 
 
 def _tokenize(readline: Callable[[], str]) -> Iterator[TokenInfo]:
